@@ -21,7 +21,7 @@ PID = "C03"
 def script(rng, tier):
     q = tier == "quick"
     spec = [("mixed", 40 if q else 400, 8), ("dict", 12 if q else 150, 6), ("rletab", 300 if q else 3000, 3), ("repeat", 30 if q else 300, 6), ("headers", 60 if q else 600, 10), ("longlen", 4 if q else 40, 6),
-            ("rawtail", 500 if q else 5000, 1), ("comp", 6 if q else 80, 10 if q else 24), ("legacy", 8 if q else 16, 40 if q else 300), ("rlebig", 14 if q else 150, 4)]
+            ("rawtail", 500 if q else 5000, 1), ("comp", 6 if q else 80, 10 if q else 24), ("legacy", 8 if q else 16, 40 if q else 300), ("legacy7", 150 if q else 1500, 2), ("rlebig", 14 if q else 150, 4)]
     L = ["GEN rlebig %d %d" % (rng.randint(1, 2000000), 6 if q else 40)]
     L += ["MUT %s %d %d %d" % (f, rng.randint(1, 2000000), n, m) for f, n, m in spec]
     return L
